@@ -180,6 +180,7 @@ PROPS = {
     },
     "C10": {
         "claimed": True,
+        "race_build": True,
         "model_modules": ["TemplVerif.Model.Buf"],
         "proof_modules": ["TemplVerif.Proofs.Buf"],
         "thorough_shards": 8,
@@ -264,16 +265,20 @@ PROPS = {
     },
     "C08": {
         "claimed": True,
-        "model_modules": ["TemplVerif.Model.Ast", "TemplVerif.Model.Gen", "TemplVerif.Model.Norm"],
-        "proof_modules": ["TemplVerif.Proofs.Norm"],
+        "model_modules": ["TemplVerif.Model.Ast", "TemplVerif.Model.Gen", "TemplVerif.Model.Norm", "TemplVerif.Model.Printer",
+                          "TemplVerif.Model.Reparse", "TemplVerif.Model.Spaced"],
+        "proof_modules": ["TemplVerif.Proofs.Norm", "TemplVerif.Proofs.Spaced"],
         "thorough_shards": 14,
         "level_text": "PROVED in Lean 4, for EVERY pair of template bodies: C08_same_class_same_program - if two trees have the same layout-class "
                       "representative (Norm.body: layout flags dropped; trailing spaces kept exactly where they are rendered and vertical = "
                       "horizontal; whitespace nodes dropped where the generator drops them; comment text dropped; everything else - names, attribute "
                       "order and values, text, expression texts, structure - kept) the generator emits the SAME statements for them, hence "
                       "(C08_same_class_same_rendering, with C02) they write the same bytes, return the same error and evaluate the same expressions "
-                      "for all values; C08_norm_projection. CHECKED on every run, not proved (there is no model of the formatter's printer and of "
-                      "the parser): for every accepted input x, fmt(x) is accepted, the REAL parser's trees of x and fmt(x) are in the same layout "
+                      "for all values; C08_norm_projection. On the printer fragment of C09 the chain is closed: C08_fragment_class_kept / "
+                      "C08_fragment_same_program - EVERY parser-well-formed fragment tree whose source already has white space wherever the "
+                      "printer breaks a line next to inline content (Spaced.body; its negation is exactly where the known finding lives) is "
+                      "re-parsed after formatting into a tree of the same class, hence the same program. CHECKED on every run (outside the "
+                      "fragment there is no model of the printer and of the parser): for every accepted input x, fmt(x) is accepted, the REAL parser's trees of x and fmt(x) are in the same layout "
                       "class template by template (expression texts compared modulo blanks), and the REAL generated code of both, after masking "
                       "positions and gofmt, is identical; an input where the code differs is a violation (with the input as replay), and a pair "
                       "in the same class whose real code differs breaks the correspondence of the theorem's model.",
@@ -282,9 +287,11 @@ PROPS = {
         "rule": "all .templ files of the repository + 17 seed bodies (x LF/CRLF) + 2500 (40000) grammar-generated files in many spellings. "
                 "Non-trivial = the file is accepted by parse + generate + gofmt.",
         "exhaustive": False,
-        "proved": ["C08_same_class_same_program", "C08_same_class_same_rendering", "C08_norm_projection"],
+        "proved": ["C08_same_class_same_program", "C08_same_class_same_rendering", "C08_norm_projection", "C08_fragment_class_kept",
+                   "C08_fragment_same_program"],
         "monitored": ["fmt(x) accepted", "generated code of x and fmt(x) identical modulo positions/gofmt", "layout class kept, template by template",
-                      "same class => same real code (model correspondence)"],
+                      "same class => same real code (model correspondence)",
+                      "fragment + parser-well-formed + spaced => the real formatter keeps the class"],
         "partial": ["class preservation by the real formatter is checked per input, not proved"],
         "trusted_base": ["go/format", "Go's insensitivity to blanks inside an expression"],
         "assumptions": STD_ASSUME,
@@ -319,6 +326,7 @@ PROPS = {
     },
     "C11": {
         "claimed": True,
+        "race_build": True,
         "model_modules": ["TemplVerif.Model.Handler"],
         "proof_modules": [],
         "level_text": "Lean 4 theorems about the model of ComponentHandler over a model of net/http's ResponseWriter: for every configuration and "
@@ -467,8 +475,9 @@ PROPS = {
         "level_note": "Trusted: Lean kernel; the hand-written ECMAScript string/template lexer and HTML script-data condition (no JS engine offline); "
                       "encoding/json's string encoder modelled (tied by T2, 2.3e4 strings quick); numbers are opaque text; a browser may merge "
                       "adjacent invalid UTF-8 bytes into one U+FFFD where Go yields one per byte; the parser's quote tracker "
-                      "(which position a {{ }} is in) is exercised only through the fixture templates, not modelled: regex literals and nested "
-                      "${} are outside the claim.",
+                      "(which position a {{ }} is in) is not modelled; it is compared on every run with the specification's source lexer "
+                      "(quotes, escapes, line continuations, comments, regular-expression literals, ${ } substitutions, HTML-like comments) on "
+                      "generated scripts: scripts with the last three constructs are where it errs (known finding).",
         "rule": "exhaustive strings over 27 symbols (' \" ` \\ / < > & $ { } + - ! LF CR NUL U+2028 e-acute 0xFF a s c r i p t) to length 3 "
                 "(quick) / 4 (thorough) through the in-literal escaper and json.Marshal; 60 adversarial strings + all strings to length 2/3 over "
                 "14 symbols through 11 rendered positions (bare, three literal kinds, on* call, inline call, JSFuncCall both forms, function-name "
@@ -476,8 +485,9 @@ PROPS = {
         "exhaustive": True,
         "proved": ["C03_inliteral (all three quote kinds, all byte strings)", "C03_bare_string", "C03_json_html_safe", "C03_attr", "C03_fname",
                    "table coverage / entry correctness by decide over the regenerated tables"],
-        "monitored": ["models = real runtime.ScriptContent*, json.Marshal, templ.SafeScript*", "lexer predicate on real rendered documents for 11 positions"],
-        "partial": ["parser quote tracker vs a JS lexer on arbitrary scripts (regex literals, nested ${}) is not claimed",
+        "monitored": ["models = real runtime.ScriptContent*, json.Marshal, templ.SafeScript*", "lexer predicate on real rendered documents for 11 positions",
+                      "parser's in-literal flag of every {{ }} = the JS source lexer's, on generated scripts"],
+        "partial": ["the parser's quote tracker is checked against the JS source lexer per input, not proved; known finding for regex literals / ${ } / <!--",
                     "full JSON value round trip (Json.parse) is stated for strings only; containers are covered by the < > & freedom theorem"],
         "trusted_base": ["ECMAScript string/template lexer spec (Spec/JsLex.lean)", "encoding/json string encoder with escapeHTML"],
         "assumptions": STD_ASSUME,
